@@ -34,6 +34,11 @@ func (r *RoutingTable) lengthOfPartCommandHandler(conn redcon.Conn, cmd redcon.C
 		return
 	}
 
+	if lengthOfPartCmd.PartID >= r.config.PartitionCount {
+		protocol.WriteError(conn, fmt.Errorf("%w: invalid partition id: %d", protocol.ErrInvalidArgument, lengthOfPartCmd.PartID))
+		return
+	}
+
 	var part *partitions.Partition
 	if lengthOfPartCmd.Replica {
 		part = r.backup.PartitionByID(lengthOfPartCmd.PartID)
